@@ -717,6 +717,18 @@ class XDataset:
         items = dict(coords or {})
         items.update(kw)
         for k, v in items.items():
+            if isinstance(v, tuple) and len(v) >= 2 and isinstance(v[0], (list, tuple, str)):
+                dims_ = (v[0],) if isinstance(v[0], str) else tuple(v[0])
+                arr = asarray(v[1])
+                if arr.ndim != len(dims_):
+                    raise_(ValueError, 'dimensions do not match data')
+                sizes = ds._sizes()
+                for d, n in zip(dims_, arr.shape):
+                    if d in sizes and not (same(n, sizes[d]) or known_true(s_eq(n, sizes[d]))):
+                        raise_(ValueError, f'conflicting sizes for dimension {d!r}')
+                ds._vars[k] = Variable(dims_, arr, dict(v[2]) if len(v) > 2 and v[2] else {}, {})
+                ds._coord_names.add(k)
+                continue
             if isinstance(v, (NDArray, list)):
                 # raw values for an existing dimension coordinate: new variable, *attrs dropped*
                 arr = asarray(v)
